@@ -26,6 +26,7 @@ type Ctx struct {
 	TmplOverlay map[string]string
 	ExtraEnv    []string
 	rel         *goan.Rel
+	evals       map[string]*evalCache
 }
 
 func NewCtx(r *core.Run) *Ctx {
